@@ -614,6 +614,19 @@ pub fn drive(s: &Arc<Sched>, policy: &Policy, rng: &mut crate::types::Rng, budge
                 g.trace.iter().rev().find(|e| e.tid == pick).map(|e| format!("{:?} {} at {}:{}", e.kind, e.what, e.file, e.line)).unwrap_or_default()
             };
             STUCK_OUTSIDE_HOOKS.fetch_add(1, Ordering::SeqCst);
+            // if no other unfinished thread can move either, nobody will ever release that lock: a
+            // deadlock of the code, not a limit of the scheduler
+            let others: Vec<usize> = s.enabled_set().into_iter().filter(|t| *t != pick).collect();
+            if others.is_empty() {
+                let mut blocked: Vec<(usize, String)> = s
+                    .unfinished()
+                    .iter()
+                    .filter(|t| **t != pick)
+                    .map(|t| (*t, s.pending_of(*t).map(|p| format!("{:?} {} at {}:{}", p.kind, p.what, p.file, p.line)).unwrap_or_default()))
+                    .collect();
+                blocked.push((pick, format!("blocked in a lock acquisition after its access `{}` (no other thread can move, so the lock is never released)", at)));
+                return RunOutcome { deadlock: true, budget_exceeded: false, steps, schedule, blocked, solo_steps, solo_blocked };
+            }
             let blocked = vec![(pick, format!("blocked OUTSIDE any hook for {} s after its access `{}` while every other thread is suspended: it waits for a lock no hook announces (a mutex released around a call-back and re-taken, a lock taken in an unexpected place) that a suspended thread holds", STEP_WATCHDOG_SECS, at))];
             return RunOutcome { deadlock: true, budget_exceeded: false, steps, schedule, blocked, solo_steps, solo_blocked };
         }
